@@ -155,6 +155,34 @@ func checkC12(w *World, r *Report) {
 			}
 		}
 	}
+	// the body renderer split off the binder receives its context as a parameter: every call of
+	// it — not only the binder's — must hand it a fresh context
+	for _, in := range renderers[choke] {
+		c := in.(ssa.CallInstruction)
+		for _, a := range c.Common().Args {
+			p, isP := a.(*ssa.Parameter)
+			if !isP || !isNamed(a.Type(), twigPath, "RenderContext") {
+				continue
+			}
+			idx := -1
+			for i, cp := range choke.Params {
+				if cp == p {
+					idx = i
+				}
+			}
+			for _, e := range realInEdges(choke) {
+				if e.Site == nil || (chokeCall != nil && e.Site == chokeCall) || idx < 0 || idx >= len(e.Site.Common().Args) {
+					continue
+				}
+				leaves, bad := ctxLeaves(e.Site.Common().Args[idx], nil, ctors)
+				if bad == "" && len(leaves) > 0 {
+					r.ok("R12.3", ssaName(e.Caller.Func), "macro body renders in a fresh context", w.posOf(e.Site.Pos()), strings.Join(leaves, "/"), true)
+				} else {
+					r.bad("R12.3", ssaName(e.Caller.Func), "macro body renders in a fresh context", w.posOf(e.Site.Pos()), "this call of the body renderer "+choke.Name()+" hands it "+bad+": on that path assignments made in the macro reach the caller")
+				}
+			}
+		}
+	}
 	// other render-like calls inside the choke point that receive a context (macro text)
 	instrsOf(choke, func(in ssa.Instruction) {
 		c, ok := in.(*ssa.Call)
